@@ -11,7 +11,8 @@
 From Coq Require Import ZArith Bool String List.
 Import ListNotations.
 Require Import Grist.Model.Migrate Grist.Model.MigrateSites Grist.Model.MigrateBodies.
-Require Import Grist.Proofs.MigrateBodies_proofs.
+Require Import Grist.Proofs.MigrateBodies_proofs Grist.Proofs.MigrateBodies2_proofs Grist.Proofs.MigrateBodies3_proofs
+               Grist.Proofs.MigrateBodies4_proofs Grist.Proofs.MigrateBodies5_proofs.
 Open Scope Z_scope.
 
 Definition migrates (body : tds -> res (list action)) (s : tds) : Prop :=
@@ -256,3 +257,141 @@ Example C25_m39_example :
               add_column T_TRIGGERS (zs "enabled") (zs "Bool");
               BulkUpdateRecord T_TRIGGERS [Some 1; Some 2] [(zs "enabled", [VBool true; VBool true])]].
 Proof. split; vm_compute; reflexivity. Qed.
+
+(* ======== from C25_bodies2.v ======== *)
+
+(* 25: _grist_Filters from the fields' filters.  pre25: the fields have filter, colRef and parentId cells. *)
+Theorem C25_m25_total : forall s, pre25 s = true -> migrates m25 s.
+Proof. exact pre25_sound. Qed.
+
+(* 26 / 30 / 40: a raw (record-card) view section per table.  pre_sec_common: string tableIds; every column
+   record has a parentId, a string colId and a parentPos that is a number (not nan); the section row ids are
+   ints; _grist_Views_section and _grist_Views_section_field have typed schemas (AddRecord / BulkAddRecord
+   default the cells they do not give).  26 also needs hashable primaryViewId cells and named views; 30 and 40
+   the summarySourceTable (and rawViewSectionRef) cells. *)
+Theorem C25_m26_total : forall s, pre26 s = true -> migrates m26 s.
+Proof. exact pre26_sound. Qed.
+Theorem C25_m30_total : forall s, pre30 s = true -> migrates m30 s.
+Proof. exact pre30_sound. Qed.
+Theorem C25_m40_total : forall s, pre40 s = true -> migrates m40 s.
+Proof. exact pre40_sound. Qed.
+
+(* 28: ModifyColumn on the Attachments columns.  pre28: for every column record of type Attachments the table it
+   belongs to has that column in its schema (metadata consistent with the user tables). *)
+Theorem C25_m28_total : forall s, pre28 s = true -> migrates m28 s.
+Proof. exact pre28_sound. Qed.
+
+(* non-vacuity: a version-29 document with one summary table through migration 30 *)
+Example C25_m30_example :
+  let mk := fun c t => (c, mkci c t false []) in
+  let s := mkTds
+    [(T_TABLES, ([Some 1; Some 2], [(zs "tableId", [VStr (zs "T"); VStr (zs "T_summary")]); (zs "summarySourceTable", [VInt 0; VInt 1]);
+                                    (zs "rawViewSectionRef", [VInt 0; VInt 0])]));
+     (T_COLUMNS, ([Some 1; Some 2; Some 3],
+        [(zs "parentId", [VInt 1; VInt 2; VInt 2]); (zs "colId", [VStr (zs "A"); VStr (zs "count"); VStr (zs "A")]);
+         (zs "parentPos", [VFlt 4607182418800017408; VInt 3; VFlt 4611686018427387904])]));
+     (T_SECTIONS, ([Some 4], [(zs "tableRef", [VInt 1]); (zs "parentId", [VInt 0]); (zs "parentKey", [VStr []]); (zs "title", [VStr []]);
+                              (zs "defaultWidth", [VInt 0]); (zs "borderWidth", [VInt 0])]));
+     (T_FIELDS, ([], [(zs "parentId", []); (zs "colRef", []); (zs "parentPos", []); (zs "width", [])]))]
+    [(T_TABLES, []); (T_COLUMNS, []);
+     (T_SECTIONS, [mk (zs "tableRef") (zs "Ref:_grist_Tables"); mk (zs "parentId") (zs "Ref:_grist_Views"); mk (zs "parentKey") (zs "Text");
+                   mk (zs "title") (zs "Text"); mk (zs "defaultWidth") (zs "Int"); mk (zs "borderWidth") (zs "Int")]);
+     (T_FIELDS, [mk (zs "parentId") (zs "Ref:_grist_Views_section"); mk (zs "colRef") (zs "Ref:_grist_Tables_column");
+                 mk (zs "parentPos") (zs "PositionNumber"); mk (zs "width") (zs "Int")])] in
+  pre30 s = true /\
+  match m30 s with
+  | Ok [AddRecord _ (Some 5) _; UpdateRecord _ (Some 2) _; BulkAddRecord _ [None; None] cols] =>
+      lookup (zs "colRef") cols = Some [VInt 3; VInt 2]        (* sorted by parentPos: 2.0 < 3 *)
+  | _ => False
+  end.
+Proof. split; vm_compute; reflexivity. Qed.
+
+(* ======== from C25_bodies3.v ======== *)
+
+(* 3: Derived -> Any and the rewritten lookupOrAddDerived formulas (re.sub is the oracle re_sub, any function).
+   pre3: every column has a type and an empty-or-string formula; a column of type Derived, or with a formula,
+   names a table record with a string tableId, has a string colId, and that table's schema has the column. *)
+Theorem C25_m3_total : forall re_sub s, pre3 s = true -> migrates (m3 re_sub) s.
+Proof. exact pre3_sound. Qed.
+
+(* 17: Image -> Attachments, cells converted.  pre17: as pre3 for the Image columns, which also have an isFormula
+   cell and, when not formulas, a data column in their user table. *)
+Theorem C25_m17_total : forall s, pre17 s = true -> migrates m17 s.
+Proof. exact pre17_sound. Qed.
+
+(* 20: _grist_Pages.  pre20: string tableIds, hashable tableRef / viewRef cells in _grist_TableViews, views with
+   string names and int ids. *)
+Theorem C25_m20_total : forall s, pre20 s = true -> migrates m20 s.
+Proof. exact pre20_sound. Qed.
+
+(* Constant bodies that also add records to the tables they create (const_ok2): migration 14 (ACL tables). *)
+Theorem C25_const2_migration_total : forall acts s,
+  const_ok2 [] acts = true -> J s ->
+  (forall t, In t (const_needs [] acts) -> has_table t s) ->
+  (forall t r, In (t, r) (const_row_needs acts) -> In r (rows_of t s)) ->
+  migrates (fun _ => Ok acts) s.
+Proof. exact const2_migration_total. Qed.
+
+Theorem C25_m14_total : forall acts s, In (14, acts) const_bodies -> J s -> migrates (fun _ => Ok acts) s.
+Proof.
+  intros acts s Hin HJ.
+  assert (Hok : const_ok2 [] acts = true /\ const_needs [] acts = [] /\ const_row_needs acts = []).
+  { vm_compute in Hin. repeat (destruct Hin as [Hin|Hin]; [try discriminate Hin; try (injection Hin as <-; repeat split; vm_compute; reflexivity)|]).
+    contradiction. }
+  destruct Hok as [Hok [Hn Hr]]. apply C25_const2_migration_total; [exact Hok|exact HJ| |].
+  - rewrite Hn. intros t [].
+  - rewrite Hr. intros t r [].
+Qed.
+
+(* non-vacuity: migration 17 on a table with one Image column *)
+Example C25_m17_example :
+  let s := mkTds
+    [(T_TABLES, ([Some 1], [(zs "tableId", [VStr (zs "T")])]));
+     (T_COLUMNS, ([Some 7], [(zs "parentId", [VInt 1]); (zs "colId", [VStr (zs "Pic")]); (zs "type", [VStr (zs "Image")]);
+                            (zs "isFormula", [VBool false])]));
+     (zs "T", ([Some 1; Some 2; Some 3], [(zs "Pic", [VInt 5; VNull; VInt 0])]))]
+    [(T_TABLES, []); (T_COLUMNS, []); (zs "T", [(zs "Pic", mkci (zs "Pic") (zs "Image") false [])])] in
+  pre17 s = true /\
+  m17 s = Ok [ModifyColumn (zs "T") (zs "Pic") [(zs "type", VStr (zs "Attachments"))];
+              BulkUpdateRecord T_COLUMNS [Some 7] [(zs "type", [VStr (zs "Attachments")])];
+              BulkUpdateRecord (zs "T") [Some 1; Some 2; Some 3] [(zs "Pic", [VList [VInt 5]; VList []; VList []])]].
+Proof. split; vm_compute; reflexivity. Qed.
+
+(* ======== from C25_bodies4.v ======== *)
+
+(* 1: Attachments / TabItems created when missing, schemaVersion added when missing, TabItems rewritten from the
+   sorted set of (tableRef, parentId) of the sections.  pre1: _grist_DocInfo exists, the sections' tableRef /
+   parentId cells are hashable numbers, an already existing _grist_TabItems has a typed schema. *)
+Theorem C25_m1_total : forall s, pre1 s = true -> migrates m1 s.
+Proof. exact pre1_sound. Qed.
+
+(* 2: TabBar, TableViews, primaryViewId.  pre2: the sections' tableRef / parentId cells are hashable numbers, they
+   have a parentKey, and the tableRef of a 'record' section is the id of a _grist_Tables record (a section
+   without a table is the documented robustness case, not covered). *)
+Theorem C25_m2_total : forall s, pre2 s = true -> migrates m2 s.
+Proof. exact pre2_sound. Qed.
+
+Example C25_m2_example :
+  let s := mkTds
+    [(T_SECTIONS, ([Some 1; Some 2; Some 3],
+        [(zs "tableRef", [VInt 2; VInt 1; VInt 2]); (zs "parentId", [VInt 7; VInt 5; VInt 6]);
+         (zs "parentKey", [VStr (zs "record"); VStr (zs "record"); VStr (zs "detail")])]));
+     (T_TABLES, ([Some 1; Some 2], [(zs "tableId", [VStr (zs "A"); VStr (zs "B")])]))]
+    [(T_SECTIONS, []); (T_TABLES, [])] in
+  pre2 s = true /\
+  match m2 s with
+  | Ok [_; _; _; BulkUpdateRecord _ ids cols; ReplaceTableData _ _ bar; ReplaceTableData _ _ tv] =>
+      ids = [Some 1; Some 2] /\ cols = [(zs "primaryViewId", [VInt 5; VInt 7])] /\
+      bar = [(zs "viewRef", [VInt 5; VInt 6; VInt 7])] /\
+      tv = [(zs "tableRef", [VInt 2]); (zs "viewRef", [VInt 6])]
+  | _ => False
+  end.
+Proof. split; [vm_compute; reflexivity|]. vm_compute. repeat split; reflexivity. Qed.
+
+(* 31: new-style names for summary tables (pick_table, re_sub: any functions).  Proved: the BODY returns under pre31
+   (string tableIds; a non-empty summarySourceTable is hashable and names a table record; columns with a hashable
+   parentId, string colId and formula, and a summarySourceCol; ACL resources with a hashable tableId).  That its
+   RenameTable actions then apply needs freshness of the picked names (C21's subject) and is NOT proved here. *)
+Theorem C25_m31_body_total : forall pick_table re_sub s,
+  pre31 s = true -> exists acts, m31 pick_table re_sub s = Ok acts.
+Proof. exact m31_body_total. Qed.
